@@ -25,13 +25,15 @@ pub enum LogEv {
     Ev { t: u64, json: String },
     Frame { t: u64, k: u64, total: usize },
     Stop { t: u64, why: String },
+    /// lines handed to radar's gpsd thread at an iteration boundary (with the fix they carry)
+    Gpsd { t: u64, fix: Option<(f64, f64)> },
     Budget,
 }
 
 impl LogEv {
     pub fn time_us(&self) -> u64 {
         match self {
-            LogEv::Connect { t, .. } | LogEv::Rd { t, .. } | LogEv::Poll { t, .. } | LogEv::Ev { t, .. } | LogEv::Frame { t, .. } | LogEv::Stop { t, .. } => *t,
+            LogEv::Connect { t, .. } | LogEv::Rd { t, .. } | LogEv::Poll { t, .. } | LogEv::Ev { t, .. } | LogEv::Frame { t, .. } | LogEv::Stop { t, .. } | LogEv::Gpsd { t, .. } => *t,
             LogEv::Budget => 0,
         }
     }
@@ -61,6 +63,13 @@ pub fn parse_log(text: &str) -> Vec<LogEv> {
             "EV" => v.push(LogEv::Ev { t, json: parts.get(3).unwrap_or(&"").to_string() }),
             "FRAME" => v.push(LogEv::Frame { t, k: rest.first().and_then(|s| s.parse().ok()).unwrap_or(0), total: kv(&rest, "total") }),
             "STOP" => v.push(LogEv::Stop { t, why: parts.get(3).unwrap_or(&"").to_string() }),
+            "GPSD" => {
+                let fix = rest.iter().find_map(|p| p.strip_prefix("fix=")).and_then(|v| {
+                    let mut it = v.split(',').map(|x| x.parse::<f64>().ok());
+                    Some((it.next()??, it.next()??))
+                });
+                v.push(LogEv::Gpsd { t, fix });
+            }
             "BUDGET" => v.push(LogEv::Budget),
             _ => {}
         }
@@ -207,6 +216,8 @@ pub fn demo() {
         segs.push(KSegment { at_us: 100_000 * (i as u64 + 1), hex: wire::hex(line.as_bytes()) });
     }
     let child = KChild {
+        gpsd: None,
+        ev_delay_us: vec![],
         connects: vec![KConnect { outcome: KOutcome::Accept, segments: segs, close_at_us: None, rst: false, eintr_reads: vec![] }],
         events: vec![
             KEvent { at_us: 500_000, ev: KEv::Key { code: "F3".into(), ctrl: false, shift: false, alt: false } },
